@@ -756,6 +756,11 @@ fn run_phase(phase: &Value, dir: &str, cas: &[CaServer], ctl: &str) -> Value {
 							}
 						});
 					}
+					// "fsize_limit": the daemon runs under a file size limit (a full disk / quota / ulimit -f stand-in)
+					let _fsize = phase
+						.get("fsize_limit")
+						.and_then(|v| v.as_u64())
+						.map(super::grids::FsizeLimit::set);
 					tokio::select! {
 						_ = srv.run() => { o["run"] = json!("returned"); }
 						_ = stop.notified() => {
@@ -763,6 +768,7 @@ fn run_phase(phase: &Value, dir: &str, cas: &[CaServer], ctl: &str) -> Value {
 						}
 					}
 					done.store(true, Ordering::SeqCst);
+					drop(_fsize);
 				}
 			}
 			o["t_end_ms"] = json!(super::vnow_ms());
